@@ -133,6 +133,27 @@ fn alphabet(dist: bool) -> Vec<Item> {
                 (frame(&f2, 4), Exp::Msg(DistMsg { control: c2.clone(), payload: Some(p2.clone()) })),
             ] });
         }
+        // the same internal index in every one of the eight segments, each holding another atom: announced in one message,
+        // all referred to as old entries in the next (slots are (segment, index) pairs)
+        {
+            let names: Vec<String> = (0..8).map(|sg| format!("seg{}_atom", sg)).collect();
+            let announce: Vec<HdrRef> = (0..8).map(|sg| HdrRef { segment: sg as u8, index: 7, new_text: Some(names[sg].clone()) }).collect();
+            let c = RefVal::Tuple(vec![RefVal::int(2), RefVal::atom(""), my_pid(1)]);
+            let p1 = RefVal::Tuple(names.iter().map(|n| RefVal::atom(n)).collect());
+            let mut f1 = write_dist_header(&announce);
+            w_term_cached(&mut f1, &c, &names);
+            w_term_cached(&mut f1, &p1, &names);
+            let old: Vec<HdrRef> = (0..8).rev().map(|sg| HdrRef { segment: sg as u8, index: 7, new_text: None }).collect();
+            let rev_names: Vec<String> = names.iter().rev().cloned().collect();
+            let p2 = RefVal::list(names.iter().map(|n| RefVal::atom(n)).collect(), RefVal::Nil);
+            let mut f2 = write_dist_header(&old);
+            w_term_cached(&mut f2, &c, &rev_names);
+            w_term_cached(&mut f2, &p2, &rev_names);
+            v.push(Item { name: "hdr_same_index_in_all_eight_segments", frames: vec![
+                (frame(&f1, 4), Exp::Msg(DistMsg { control: c.clone(), payload: Some(p1) })),
+                (frame(&f2, 4), Exp::Msg(DistMsg { control: c.clone(), payload: Some(p2) })),
+            ] });
+        }
         // entries announced, then a well-formed message the decoder refuses after its header (payload nested 300 deep, with one
         // more announcement in that header), then old references to all of them: the cache must still agree with the sender
         {
@@ -234,6 +255,20 @@ fn alphabet(dist: bool) -> Vec<Item> {
                     frames.push((frame(&f2, 4), Exp::MsgAfterAsIs(DistMsg { control: c2, payload: Some(p2) })));
                     v.push(Item { name: iname, frames });
                 }
+            }
+            // two sequences interleaved, in both orders of completion (the one with the larger id first, and last)
+            {
+                let mk = |seq: u64| -> Vec<Vec<u8>> {
+                    let mut fr: Vec<Vec<u8>> = vec![];
+                    { let mut h = vec![131u8, 69]; h.extend_from_slice(&seq.to_be_bytes()); h.extend_from_slice(&3u64.to_be_bytes()); h.push(0); h.extend_from_slice(chunks[2]); fr.push(h); }
+                    for id in [2u64, 1] { let mut c = vec![131u8, 70]; c.extend_from_slice(&seq.to_be_bytes()); c.extend_from_slice(&id.to_be_bytes()); c.extend_from_slice(chunks[id as usize - 1]); fr.push(c); }
+                    fr
+                };
+                let (lo, hi) = (mk(40), mk(41));
+                let p = |f: &Vec<u8>| (frame(f, 4), Exp::FragPart);
+                let l = |f: &Vec<u8>| (frame(f, 4), Exp::FragAsIsLast(m_plain.clone()));
+                v.push(Item { name: "kfragperm_asis_two_sequences_larger_id_completes_first", frames: vec![p(&lo[0]), p(&hi[0]), p(&lo[1]), p(&hi[1]), l(&hi[2]), l(&lo[2])] });
+                v.push(Item { name: "kfragperm_asis_two_sequences_smaller_id_completes_first", frames: vec![p(&hi[0]), p(&lo[0]), p(&hi[1]), p(&lo[1]), l(&lo[2]), l(&hi[2])] });
             }
             // the same layout under sequence ids that use the top bit of their 64 bits
             for (iname, seq) in [("kfragperm_asis_sequence_id_2^63", 1u64 << 63), ("kfragperm_asis_sequence_id_2^64-1", u64::MAX)] {
